@@ -19,6 +19,8 @@ fn main() {
         "C19" => rtcmon::engines::demux_bridge::run(&args),
         "C16" => rtcmon::engines::stun_diff::run(&args),
         "C06" => rtcmon::engines::ice_attack::run(&args),
+        "C09" => rtcmon::engines::jsep_fsm::run(&args),
+        "C08" => rtcmon::engines::sdp_neg::run(&args),
         other => {
             eprintln!("unknown property/engine {other}");
             2
